@@ -285,6 +285,11 @@ class MuxSocketTransportSink(ClientMessageSink):
         # for this message.  If the message times out in transit, this
         # transport will handle sending a Tdiscarded to the server.
         if self._HandleTimeout(dct): continue
+        if dct.get(Tag.KEY, 0) is None:
+          # The peer already answered this tag (and it went back to the pool)
+          # before the request was written; writing it now would put a second
+          # request with a recycled tag on the wire.
+          continue
 
         with self._varz.send_time.Measure():
           with self._varz.send_latency.Measure():
